@@ -52,6 +52,9 @@ def apply_impl(s, op):
     k = op[0]
     if k == 'kT': s.kT = op[1]
     elif k == 'dom': s.domain = None if op[1] is None else pyPRISM.Domain(length=op[1], dr=op[2])
+    elif k == 'domset':
+        if s.domain is None: return False
+        s.domain.dr = op[1]                       # IN-PLACE edit of the Domain object the System holds
     elif k == 'dens': s.density[T[op[1]]] = op[2]
     elif k == 'diam': s.diameter[T[op[1]]] = op[2]
     elif k == 'potall': s.potential[s.types, s.types] = G.mk_pot(op[1])
@@ -68,6 +71,7 @@ def apply_impl(s, op):
 def model_line(op):
     k = op[0]
     if k in ('potall', 'cloall'): return None
+    if k == 'domset': return 'DOMSET'
     if k == 'kT': return 'w.op kT ' + f2h(op[1])
     if k == 'dom': return 'w.op dom none' if op[1] is None else 'w.op dom %d %s' % (op[1], f2h(op[2]))
     if k == 'dens': return 'w.op dens %s %d' % (f2h(op[2]), op[1])
@@ -90,6 +94,8 @@ def track(sd, op):
         return
     if k == 'kT': sd['kT'] = op[1]
     elif k == 'dom': sd['dom'] = None if op[1] is None else [op[1], op[2]]
+    elif k == 'domset':
+        if sd.get('dom') is not None: sd['dom'] = [sd['dom'][0], op[1]]
     elif k == 'dens': sd['dens'][op[1]] = op[2]
     elif k == 'diam': sd['diam'][op[1]] = op[2]
     elif k in ('pot', 'clo', 'om'):
@@ -169,6 +175,9 @@ def suite_history(ctx, case):
                     warnings.simplefilter('ignore'); pf = fresh.createPRISM()
                 same = G.wiring_tok(p) == G.wiring_tok(pf)
                 ctx.pred('history', sub, same, 'PRISM object created after the edit history differs from the one of a fresh System with the same parameters', key='C16:sweep-fresh')
+                okw, whyw = C01.wiring_ok(p, sd)
+                ctx.pred('history', sub, okw and float(p.sys.kT) == sd['kT'] and (p.sys.domain.length, float(p.sys.domain.dr)) == (sd['dom'][0], float(sd['dom'][1])),
+                         'the new PRISM object is not wired from the System\'s current state: ' + whyw, key='C16:wiring')
                 assert drv.ask('w.prism %d' % (len(prisms) - 1)) == 'ok'
                 line = G.wiring_tok(p)
                 ctx.corr('history', sub, drv.ask('prism.wiring'), line, rtol=1e-11, atols=G.group_atols(line, 1e-12), what='wiring of the new PRISM object')
@@ -187,6 +196,8 @@ def suite_history(ctx, case):
                 # ONE object assigned to all pairs in one statement: the model receives the equivalent pair-by-pair assignments
                 for (i, j) in G.pairs_of(n):
                     ml = drv.ask(model_line(['pot' if op[0] == 'potall' else 'clo', i, j, op[1]]))
+            elif op[0] == 'domset':
+                ml = drv.ask('w.op dom %d %s' % (sd['dom'][0], f2h(op[1]))) if (ok and sd.get('dom') is not None) else 'ERR rejected'
             else:
                 ml = drv.ask(model_line(op))
             ctx.corr('history', sub, ml, 'ok' if ok else 'ERR rejected', what='edit accepted')
@@ -232,7 +243,7 @@ def gen_edit(rng, sd_hint, n, L):
     if k == 'clo':
         c = rng.choice(['py', 'hnc', 'msa', 'ms']); return ['clo', i, j, [c, True if c in ('msa', 'ms') else rng.random() < 0.5]]
     if k == 'om': return ['om', i, j, G.gen_om_diag(rng, L) if i == j else G.gen_om_off(rng, L)]
-    if k == 'dom': return ['dom', L, rng.choice([0.1, 0.2, 0.125, 0.25])]     # length kept so that tabulated omegas stay valid
+    if k == 'dom': return rng.choice([['dom', L, rng.choice([0.1, 0.2, 0.125, 0.25])], ['domset', rng.choice([0.1, 0.2, 0.125, 0.25, 0.05])]])     # length kept so that tabulated omegas stay valid
     if k == 'potsigma': return ['potsigma', i, j, rng.choice([None, float('%.4g' % rng.uniform(0.5, 1.5))])]
     return [rng.choice(['pot', 'clo', 'om']), i, j, None]
 
